@@ -150,6 +150,15 @@ func init() {
 			fr.i.checkAssert(fr.i.term(a[0]), msg)
 			return nil
 		},
+		// verifAssertModel: an assertion about something only the model can observe (number of
+		// reads of a file, recorded sleeps): a violation has no native replay
+		"verifAssertModel": func(fr *frame, a []value) value {
+			msg := nameArg(a[1])
+			fr.i.assertKind = "model"
+			fr.i.checkAssert(fr.i.term(a[0]), msg)
+			fr.i.assertKind = ""
+			return nil
+		},
 		"verifReach": func(fr *frame, a []value) value {
 			if fr.i.pcHasF && fr.i.reached[nameArg(a[0])] == 0 {
 				if r, _ := fr.i.fullModel(nil); r != "sat" {
